@@ -105,6 +105,18 @@ fn contexts(payload: &E, in_word_ok: bool) -> Vec<G> {
         G { stmts: vec![Stmt::Call { name: "cmd".into(), expr: E::r("D1") }, def("D1", E::Alt(vec![E::lit("o"), E::r("D2")])), def("D2", p())] },
         G { stmts: vec![Stmt::Call { name: "cmd".into(), expr: E::lit("x") }, Stmt::Call { name: "cmd".into(), expr: p() }] },
     ];
+    // far from the start: after 300 mandatory words, and behind a chain of 40 definitions
+    {
+        let mut items: Vec<E> = (0..300).map(|i| E::lit(&format!("w{i}"))).collect();
+        items.push(p());
+        v.push(call(E::Seq(items)));
+        let mut stmts = vec![Stmt::Call { name: "cmd".into(), expr: E::r("K0") }];
+        for i in 0..40 {
+            stmts.push(def(&format!("K{i}"), E::Seq(vec![E::lit(&format!("k{i}")), E::r(&format!("K{}", i + 1))])));
+        }
+        stmts.push(def("K40", p()));
+        v.push(G { stmts });
+    }
     if in_word_ok {
         v.push(call(E::Word(vec![E::lit("--o="), p()])));
         v.push(G { stmts: vec![Stmt::Call { name: "cmd".into(), expr: E::Word(vec![E::lit("--o="), E::r("D")]) }, def("D", p())] });
@@ -363,7 +375,7 @@ pub fn run(tier: Tier) -> Report {
     rep.cov(
         "rule",
         J::s(format!(
-            "exhaustive placement: every mistake class (spaces inside a word directly / through 1-2 definitions; placeholder that something can follow; conflicting descriptions directly, via [], via two call variants, inside a word; cycles of length 1-3 x 7 reference shapes x 5 reachability situations x unrelated root x statement order; duplicate plain / @target / @other definitions in every order; missing / varying / invalid command names; unknown shells; non-command specializations) planted in every context of a fixed list of 13-15 grammar contexts, x 4 shells; plus the verdict of every tree <= {k} nodes over V0 and of the definition family (bash, zsh) against the reference classification R8. A case is non-trivial/distinct per (grammar text, shell) with a demanded verdict; cases where statement and code can be read either way (juxtaposed literals a(b), literal adjacency through [] or a definition, described vs undescribed literal) are counted as skipped."
+            "exhaustive placement: every mistake class (spaces inside a word directly / through 1-2 definitions; placeholder that something can follow; conflicting descriptions directly, via [], via two call variants, inside a word; cycles of length 1-3 x 7 reference shapes x 5 reachability situations x unrelated root x statement order; duplicate plain / @target / @other definitions in every order; missing / varying / invalid command names; unknown shells; non-command specializations) planted in every context of a fixed list of 15-17 grammar contexts (incl. after 300 mandatory words and behind a chain of 40 definitions), x 4 shells; plus the verdict of every tree <= {k} nodes over V0 and of the definition family (bash, zsh) against the reference classification R8. A case is non-trivial/distinct per (grammar text, shell) with a demanded verdict; cases where statement and code can be read either way (juxtaposed literals a(b), literal adjacency through [] or a definition, described vs undescribed literal) are counted as skipped."
         )),
     );
     rep.cov("exhaustive", J::Bool(true));
